@@ -322,15 +322,20 @@ func c18Unknown(c *core.Case) {
 		known[k] = true
 	}
 	code := []int{0, -1, 6677, 999999, 3856, -4326, 1}[r.Intn(7)]
-	if r.Bool() {
-		code = int(r.Range(-100000, 100000))
+	switch r.Intn(5) {
+	case 0, 1:
+		code = int(r.Range(-100000, 200000))
+	case 2: // codes of other registries and retired codes that software commonly treats as aliases of Web Mercator or WGS 84
+		code = []int{102100, 102113, 900913, 3785, 54004, 41001, 3587, 3875, 900914, 102100 + 1, 4326 + 100000, 104199, 102010}[r.Intn(13)]
+	case 3: // neighbours of a table code
+		code = c18Codes[r.Intn(len(c18Codes))] + int(r.Range(-3, 3))
 	}
 	if r.P(0.3) { // a code that equals a known one modulo 2^32 (truncation to 32 bits)
 		code = c18Codes[r.Intn(len(c18Codes))]
 		if r.P(0.5) {
 			code = 3857
 		}
-		code += int(r.Range(-3, 3)) << 32
+		code += int(r.Range(-8, 8)) << 32
 		if code == 3857 {
 			code += 1 << 32
 		}
